@@ -41,3 +41,73 @@ CHECKS["C17"] = dict(
     note="Trusted: the stubs' logs; back-off boundary cases are counted as ambiguous, never judged; a SERVFAIL reply from a main is relayed (statement), not failed over.",
     ref="2/C17",
 )
+CHECKS["C01"] = dict(
+    level="exploration",
+    technique="runtime monitoring: the real dnsserver listeners of all transports (UDP, TCP, DoT, DoH h1/h2/plain GET+POST, JSON API, DoQ, DNSCrypt UDP+TCP; h3 thorough) driven by raw byte-exact clients; per-response oracle against the handler invoked directly, cross-transport comparison, hostile-input expectation table computed from the bytes; race detector",
+    text="Generated well-formed queries x 16 client paths must each get exactly one response with the request's ID and question and the handler's rcode/records (modulo documented truncation/padding/keep-alive/OPT echo); random bytes, truncations at every offset and header mutations must get the documented FORMERR/NOTIMP/drop treatment, never another ID/question, and a liveness probe follows every hostile batch.",
+    note="Trusted: the expectation table written from the servers' documentation; UDP requests <= 512 bytes; DoQ answering response-bit messages with SERVFAIL is accepted as documented. ~15k (input, path) pairs per quick run.",
+    ref="2/C01",
+)
+CHECKS["C04"] = dict(
+    level="exploration",
+    technique="runtime monitoring: simple and ECS cache middlewares around a scripted upstream with per-request 'upstream called' tokens; warm/fresh differential, key-separation pairs, cacheability classes, parallel age sweep judged by interval arithmetic on monotonic timestamps; race detector on the concurrent phase",
+    text="Hits must equal fresh answers (TTL masked), never cross (name, qtype, qclass, DO, subnet/location) keys, never carry a TTL above the rounded remaining lifetime at the lenient end of the recorded age interval, never be served after expiry, and uncacheable classes must reach the upstream every time.",
+    note="Both caches read the wall clock: ages are real sleeps (1-3 s TTLs, hundreds of entries in parallel); cases straddling a rounding boundary are counted ambiguous. SERVFAIL lifetime (30 s) is not waited for, only its TTL cap.",
+    ref="2/C04",
+)
+CHECKS["C05"] = dict(
+    level="exploration",
+    technique="runtime monitoring: recorded histories through the real stack with the real ECS cache, unique upstream payload per call, wire-crafted ECS options, GeoIP fake with recognisable coarse subnets; order-free 'may serve' model replayed over each history; race detector on the concurrent variant",
+    text="Every upstream request's ECS must be /0 or the GeoIP coarse subnet of the client's (or its option's) location and family; /0 clients only get /0-obtained answers; scoped answers are reused only within the same subnet+family (incl. sibling subnets differing in a partial byte); the response echoes the client's own prefix with scope = source length iff the query had a valid option; malformed options get FORMERR.",
+    note="Trusted: the scripted upstream and GeoIP fake; options the DNS library refuses to parse are injected as structures. 150 sequential + 40 concurrent histories per quick run.",
+    ref="2/C05",
+)
+CHECKS["C07"] = dict(
+    level="exploration",
+    technique="runtime monitoring: (1) sequential-vs-32-goroutine differential of packed responses through the real stack (real filter storage, hash-prefix filters, ECS cache, production Cloner, Dispose after write) under the race detector; (2) shadow-heap monitor over seeded Clone/Dispose/constructor histories re-checking every live message after every step",
+    text="Each concurrent response must be byte-identical to the same request processed alone (TTL decay of cache hits masked by interval arithmetic); every live clone must keep its snapshot through arbitrary clone/dispose sequences over all RR types, SVCB parameters and EDNS options, equal its original and share no memory with it.",
+    note="Trusted: the upstream is a pure function of the question; hash-prefix names are pinned to one profile. sync.Pool behaviour makes reuse probabilistic, directed probes are retried.",
+    ref="2/C07",
+)
+CHECKS["C09"] = dict(
+    level="exploration",
+    technique="runtime monitoring: exhaustive virtual-time enumeration of RequestCounter.Add against a timestamp-log model (exhaustive: true for that layer), real Backoff scenarios judged by interval arithmetic with guard bands, full-stack profile/global/protocol gating; race detector and porcupine on concurrent Add",
+    text="All non-decreasing timestamp sequences of length 8 over boundary grids for limits 1-4 (72k sequences) plus long seeded sequences; Backoff: limit, back-off entry/exit incl. hits spread over several periods, allow-list, ANY refusal, every subnet key length, response-size weighting, counter-entry expiry; stack: drop = handler not run and nothing written, DoT never limited, profile limit replaces the global one.",
+    note="Backoff and the profile limiter read the wall clock: time-dependent verdicts only when they hold for every instant compatible with the recorded intervals (5 ms guard band); an event exactly one interval old may count either way (consistently).",
+    ref="2/C09",
+)
+CHECKS["C10"] = dict(
+    level="exploration",
+    technique="runtime monitoring: real access.Global and access.DefaultProfile inside the real stack with a DNS cache; per-request trace of every downstream side effect and of written responses judged by a membership model from the statement; cold-key twin requests detect caching",
+    text="300 configurations x 60 probes on subnet/ASN/name-rule boundaries (IPv4, IPv6, IPv4-mapped), attributed and anonymous clients over all identification channels: blocked => no response, nil error, zero side effects, nothing cached; not blocked => exactly one response; malformed-ECS / invalid-device-id requests of globally blocked clients must also stay unanswered.",
+    note="Trusted: urlfilter semantics for the rule grammar used (host rules exact, ||d^ suffix); GeoIP fake.",
+    ref="2/C10",
+)
+CHECKS["C12"] = dict(
+    level="exploration",
+    technique="runtime monitoring: twin real filter storages (result caches live vs cleared before every call) + a storage rebuilt from current content; hook-parked reader straddling a hash refresh; concurrent readers vs refreshes checked per host with porcupine against a version register; race detector",
+    text="Sequential histories of queries from 8 requesters (different blocking modes, TTLs, EDE, EDNS) interleaved with rule-list, hash-list, service, safe-search refreshes and custom-rule updates: verdicts and packed messages must be equal between twins and equal to a from-scratch storage after every refresh; queries started after a refresh returned must never see the previous version.",
+    note="Trusted: version-revealing list contents; collisions of 64-bit cache keys ignored; rule-list/safe-search straddles have no hook and are covered by stress only.",
+    ref="2/C12",
+)
+CHECKS["C14"] = dict(
+    level="exploration",
+    technique="runtime monitoring: real profiledb.Default over a scripted storage vs a map-of-latest-records model; verifhook-parked clean-up goroutines to produce both clean-up/sync orders; restart-from-cache field-by-field reflection comparison; concurrent lookups under the race detector + porcupine; SIGKILL/strace-injected kills during cache store",
+    text="After every sync all four lookups are issued for every key that ever existed; every clean-up is released before and after the next sync (hook hit counts gated); after each full sync a second database opened on the cache file must answer identically with every exported field preserved; killed stores must leave exactly one complete version.",
+    note="Trusted: the scripted Storage stands in for backendpb; crash points at syscall granularity, no power-loss semantics.",
+    ref="2/C14",
+)
+CHECKS["C18"] = dict(
+    level="exploration",
+    technique="runtime monitoring: real connlimiter over harness listeners with seeded accept/close/double-close/listener-close schedules, begin/end-marked event log, hysteresis model over all orderings consistent with the marks, quiescent points established by goroutine dumps (no timing verdicts); real TCP/TLS servers with a gated handler for the pipeline bound",
+    text="All (stop, resume) with 1<=stop<=4 x 1-3 listeners x 560 schedules: open+pending never exceeds stop, no accept while stopped, waiters proceed after resume and are released by listener close, a connection is released exactly once; pipelined bursts never exceed n concurrent handler entries per connection and every query is answered once.",
+    note="Progress is decided only at quiescent points (every actor parked in a blocking primitive, confirmed by repeated goroutine dumps); Go runtime wait-reason strings are trusted.",
+    ref="2/C18",
+)
+CHECKS["C19"] = dict(
+    level="exploration",
+    technique="runtime monitoring: real websvc linked-IP proxy on loopback with a recording back-end and a raw TCP client (byte-exact request lines/headers, several peer addresses); back-end contact and every forwarded request judged by a model from doc/http.md + RFC 3986",
+    text="30k generated requests (methods, path grammar with dot/encoded/empty/extra segments, absolute-form targets, forged/duplicated/Connection-named forwarding headers): back-end contacted only for the four documented shapes; forwarded path stays under /linkip/ or /ddns/ after normalisation; exactly one X-Connecting-IP equal to the TCP peer; no client-supplied forwarding header values; everything else 404/robots.",
+    note="Requests the HTTP server itself rejects before the handler are judged leniently (back-end untouched only). Targets whose readings disagree are never required to be proxied.",
+    ref="2/C19",
+)
